@@ -405,3 +405,43 @@ def lower_visibility(src):
             j = next_sig(toks, match_close(toks, j))
         return text(toks, 0, k) + text(toks, j, len(toks))
     return src
+
+
+# ---------------------------------------------------------------- R6 adapter chains
+def adapter_chains(src, log):
+    """X.drain().filter(C).collect()  ->  verif_drain_filter_collect(&mut X, C)"""
+    for _ in range(10):
+        toks = tokenize(src)
+        hit = None
+        for k, t in enumerate(toks):
+            if t.kind == "ident" and t.text == "drain":
+                p = prev_sig(toks, k)
+                o = next_sig(toks, k)
+                if p < 0 or toks[p].text != "." or toks[o].text != "(":
+                    continue
+                c = match_close(toks, o)
+                if text(toks, o + 1, c).strip():
+                    continue  # drain(..) on VecDeque is handled by the shim type
+                d1 = next_sig(toks, c)
+                f = next_sig(toks, d1)
+                if toks[d1].text != "." or toks[f].text != "filter":
+                    raise ExtractError("R6: drain() not followed by .filter")
+                fo = next_sig(toks, f)
+                fc = match_close(toks, fo)
+                d2 = next_sig(toks, fc)
+                cl = next_sig(toks, d2)
+                if toks[d2].text != "." or toks[cl].text != "collect":
+                    raise ExtractError("R6: drain().filter() not followed by .collect")
+                co = next_sig(toks, cl)
+                cc = match_close(toks, co)
+                recv = prev_sig(toks, p)
+                if toks[recv].kind != "ident":
+                    raise ExtractError("R6: drain receiver is not a plain variable")
+                hit = (recv, cc, toks[recv].text, text(toks, fo + 1, fc))
+                break
+        if not hit:
+            return src
+        recv, cc, name, clos = hit
+        src = text(toks, 0, recv) + "verif_drain_filter_collect(&mut %s, %s)" % (name, clos) + text(toks, cc + 1, len(toks))
+        log.append({"rule": "R6", "shape": "drain().filter().collect()", "receiver": name})
+    raise ExtractError("R6 did not converge")
